@@ -4,6 +4,7 @@
  */
 
 #include <string.h>
+#include <stdlib.h>
 
 #include "types.h"
 
@@ -26,9 +27,10 @@ extern long mpt_buffer_set(MPT_STRUCT(buffer) *buf, const MPT_STRUCT(type_traits
 	const MPT_STRUCT(type_traits) *traits;
 	int  (*init)(void *, const void *);
 	void (*fini)(void *);
-	uint8_t *ptr;
+	uint8_t *ptr, *tmp = 0;
 	size_t end, used;
 	size_t elem_size;
+	long count;
 	
 	if ((SIZE_MAX - pos) < len) {
 		return MPT_ERROR(BadArgument);
@@ -48,7 +50,8 @@ extern long mpt_buffer_set(MPT_STRUCT(buffer) *buf, const MPT_STRUCT(type_traits
 			memset(ptr + buf->_used, 0, pos - buf->_used);
 		}
 		if (src_data) {
-			memcpy(ptr + pos, src_data, len);
+			/* source may be content of this buffer */
+			memmove(ptr + pos, src_data, len);
 		} else {
 			memset(ptr + pos, 0, len);
 		}
@@ -80,6 +83,26 @@ extern long mpt_buffer_set(MPT_STRUCT(buffer) *buf, const MPT_STRUCT(type_traits
 			return MPT_ERROR(BadType);
 		}
 	}
+	/* source elements inside the assigned range are terminated before they can be copied: copy them first */
+	if (init && fini && src_data
+	 && ((const uint8_t *) src_data < (ptr + ((used < end) ? used : end)))
+	 && (((const uint8_t *) src_data + len) > (ptr + pos))) {
+		size_t off;
+		if (!(tmp = malloc(len ? len : 1))) {
+			return MPT_ERROR(BadOperation);
+		}
+		for (off = 0; off < len; off += elem_size) {
+			if (init(tmp + off, ((const uint8_t *) src_data) + off) < 0) {
+				while (off) {
+					off -= elem_size;
+					fini(tmp + off);
+				}
+				free(tmp);
+				return MPT_ERROR(BadOperation);
+			}
+		}
+		src_data = tmp;
+	}
 	/* terminate overlapping target data */
 	if (fini) {
 		size_t off;
@@ -93,6 +116,12 @@ extern long mpt_buffer_set(MPT_STRUCT(buffer) *buf, const MPT_STRUCT(type_traits
 		for (off = used; off < pos; off += elem_size) {
 			if (init(ptr + off, 0) < 0) {
 				buf->_used = off;
+				if (tmp) {
+					for (off = 0; off < len; off += elem_size) {
+						fini(tmp + off);
+					}
+					free(tmp);
+				}
 				return MPT_ERROR(BadOperation);
 			}
 		}
@@ -103,7 +132,8 @@ extern long mpt_buffer_set(MPT_STRUCT(buffer) *buf, const MPT_STRUCT(type_traits
 	/* generic data copy */
 	if (!init) {
 		if (src_data) {
-			memcpy(ptr + pos, src_data, len);
+			/* source may be content of this buffer */
+			memmove(ptr + pos, src_data, len);
 		} else {
 			memset(ptr + pos, 0, len);
 		}
@@ -113,7 +143,7 @@ extern long mpt_buffer_set(MPT_STRUCT(buffer) *buf, const MPT_STRUCT(type_traits
 	/* prepare target and copy data */
 	else {
 		const uint8_t *from = src_data;
-		long count = 0;
+		count = 0;
 		
 		/* initialize target values from source */
 		while (pos < end) {
@@ -135,14 +165,24 @@ extern long mpt_buffer_set(MPT_STRUCT(buffer) *buf, const MPT_STRUCT(type_traits
 						pos += elem_size;
 					}
 				}
-				return count;
+				end = 0;
+				break;
 			}
 			pos += elem_size;
 			from += elem_size;
 		}
-		/* update target size */
-		buf->_used = (used < end) ? end : used;
-		
+		/* update target size (complete assignment only) */
+		if (end) {
+			buf->_used = (used < end) ? end : used;
+		}
+		/* release copies made in advance */
+		if (tmp) {
+			size_t off;
+			for (off = 0; off < len; off += elem_size) {
+				fini(tmp + off);
+			}
+			free(tmp);
+		}
 		return count;
 	}
 }
